@@ -140,6 +140,17 @@ func c20Run(ctx *core.Ctx) {
 				}
 			}
 		}
+		// several listeners served by one server; the Serve of one of them ends early (permanent
+		// Accept error, possibly after temporary ones) - Close / Shutdown still have to end the others
+		for nl := 2; nl <= 4; nl++ {
+			for failing := -1; failing < nl; failing++ {
+				for _, how := range []string{"Close", "Shutdown"} {
+					for _, pre := range []string{"", "temp"} {
+						emit(c20Case{Kind: "listeners", NList: nl, Seed: uint64(failing + 1), Callback: how, Transfer: pre})
+					}
+				}
+			}
+		}
 		for i := 0; i < nReplay; i++ {
 			emit(c20Case{Kind: "replay", Seed: uint64(i)})
 		}
@@ -163,6 +174,150 @@ func c20Exec(ctx *core.Ctx, c c20Case) {
 		c20Replay(ctx, c)
 	case "expired":
 		c20Expired(ctx, c)
+	case "listeners":
+		c20Listeners(ctx, c)
+	}
+}
+
+// c20Listeners: NList listeners are registered one after the other (each Serve has entered Accept
+// before the next one starts, so the registration order is known); the Serve of listener Seed-1
+// (none for Seed 0) returns early on a permanent Accept error. Every other listener then serves
+// one connection, and Close / Shutdown must close every remaining listener, make every Serve
+// return and end the connections.
+func c20Listeners(ctx *core.Ctx, c c20Case) {
+	failing := int(c.Seed) - 1
+	ctx.Eval(fmt.Sprintf("listeners|%d|%d|%s|%s", c.NList, failing, c.Callback, c.Transfer), true)
+	l := rec.NewLog()
+	srv := smtp.NewServer(rec.NewBackend(l, rec.Plain))
+	srv.ErrorLog = l
+	fail := func(sig, msg string) {
+		ctx.Violate(sig, msg+fmt.Sprintf(" [listeners=%d failing=%d ended by %s]", c.NList, failing, c.Callback), c, l.Strings(30))
+	}
+	var ls []*memconn.Listener
+	var dones []chan error
+	for i := 0; i < c.NList; i++ {
+		ml := memconn.NewListener()
+		ls = append(ls, ml)
+		d := make(chan error, 1)
+		dones = append(dones, d)
+		go func() { d <- srv.Serve(ml) }()
+		ml.WaitAccepting()
+	}
+	cleanup := func() {
+		done := make(chan struct{})
+		go func() { srv.Close(); close(done) }()
+		select {
+		case <-done:
+		case <-time.After(wire.Watchdog):
+		}
+		for _, ml := range ls {
+			ml.Close()
+		}
+	}
+	if failing >= 0 {
+		if c.Transfer == "temp" {
+			ls[failing].PushErr(memconn.TempErr{N: 0})
+		}
+		ls[failing].PushErr(memconn.PermErr{N: 1})
+		select {
+		case err := <-dones[failing]:
+			var pe memconn.PermErr
+			if !errors.As(err, &pe) {
+				fail("C20:serve-accept-result", fmt.Sprintf("Serve of listener %d returned %v, expected its permanent Accept error", failing, err))
+				cleanup()
+				return
+			}
+		case <-time.After(wire.Watchdog):
+			fail("C20:serve-ignores-permanent-accept-error", "Serve did not return on a permanent Accept error")
+			cleanup()
+			return
+		}
+	}
+	// every other listener still serves
+	var ends []*memconn.Conn
+	for i, ml := range ls {
+		if i == failing {
+			continue
+		}
+		cEnd, sEnd := memconn.Pipe(l)
+		cEnd.SetWatchdog(wire.Watchdog)
+		ml.Push(sEnd)
+		buf := make([]byte, 64)
+		n, err := cEnd.Read(buf)
+		if err != nil || !strings.HasPrefix(string(buf[:n]), "220") {
+			fail("C20:listener-not-served", fmt.Sprintf("listener %d of %d did not serve a new connection after listener %d had failed: %q %v", i, c.NList, failing, buf[:n], err))
+			cleanup()
+			return
+		}
+		ends = append(ends, cEnd)
+	}
+	ended := make(chan error, 1)
+	if c.Callback == "Close" {
+		go func() { ended <- srv.Close() }()
+	} else {
+		for _, e := range ends {
+			e.Close() // Shutdown waits for the connections: the peers leave
+		}
+		go func() { ended <- srv.Shutdown(context.Background()) }()
+	}
+	select {
+	case err := <-ended:
+		if err != nil {
+			fail("C20:close-result", fmt.Sprintf("%s returned %v", c.Callback, err))
+			cleanup()
+			return
+		}
+	case <-time.After(wire.Watchdog):
+		lines, blocked := c20Blocked()
+		if blocked {
+			fail("C20:close-does-not-return", fmt.Sprintf("%s does not return: %s", c.Callback, strings.Join(lines, " ; ")))
+		} else {
+			ctx.Inconclusive("C20 listeners: watchdog in " + c.Callback)
+		}
+		cleanup()
+		return
+	}
+	for i, ml := range ls {
+		if i == failing {
+			continue
+		}
+		if !ml.IsClosed() {
+			fail("C20:close-leaves-listener-open", fmt.Sprintf("%s returned but listener %d of %d (registered after the one whose Serve had ended: %v) is still open", c.Callback, i, c.NList, failing >= 0 && i > failing))
+			cleanup()
+			return
+		}
+		select {
+		case err := <-dones[i]:
+			if err != nil {
+				fail("C20:serve-result-after-close", fmt.Sprintf("Serve of listener %d returned %v after %s", i, err, c.Callback))
+				cleanup()
+				return
+			}
+		case <-time.After(wire.Watchdog):
+			fail("C20:serve-does-not-return", fmt.Sprintf("Serve of listener %d did not return after %s", i, c.Callback))
+			cleanup()
+			return
+		}
+	}
+	if c.Callback == "Close" {
+		for i, e := range ends {
+			e.SetWatchdog(wire.Watchdog)
+			buf := make([]byte, 64)
+			if _, err := e.Read(buf); err == nil || isWatchdog(err) {
+				fail("C20:close-leaves-connection-open", fmt.Sprintf("Close returned but connection %d is still open (read: %v)", i, err))
+				cleanup()
+				return
+			}
+			e.Close()
+		}
+	}
+	if err := srv.Close(); !errors.Is(err, smtp.ErrServerClosed) {
+		fail("C20:second-close", fmt.Sprintf("a second Close returned %v, expected ErrServerClosed", err))
+		return
+	}
+	ctx.Add("listeners_served", int64(c.NList))
+	if ctx.WantSample("listeners") {
+		ctx.Sample("listeners", map[string]any{"listeners": c.NList, "failing": failing, "ended_by": c.Callback})
 	}
 }
 
